@@ -425,13 +425,50 @@ def r4(run, ctx):
                  'documented reference syntaxes: %r' % pat)
     f = ctx.fn('circus.util:replace_gnu_args')
     txt = norm_text(f.node)
-    run.check('R4', astq.has_pattern(txt, '$k = $k.lower()') and
-              len(astq.pattern_regex('$k = $k.lower()').findall(txt)) >= 2,
-              'option keys are lower-cased', f, f.node,
-              'option names are compared case-sensitively')
+    from sa.dataflow import reaching_defs
+
+    def all_lowered(expr, names):
+        """every occurrence of the given variables in expr is `<v>.lower()`"""
+        lowered = set()
+        for x in ast.walk(expr):
+            if isinstance(x, ast.Call) and isinstance(x.func, ast.Attribute) and \
+                    x.func.attr == 'lower' and isinstance(x.func.value, ast.Name):
+                lowered.add(id(x.func.value))
+        return all(id(x) in lowered for x in ast.walk(expr)
+                   if isinstance(x, ast.Name) and x.id in names)
+    rdf = reaching_defs(ctx, f)
+    loopvars = set()
+    for h in ctx.cfg(f).nodes:
+        if h.kind == 'iter':
+            tg = h.ast.target
+            first = tg.elts[0] if isinstance(tg, ast.Tuple) and tg.elts else tg
+            if isinstance(first, ast.Name):
+                loopvars.add(first.id)
+    stores = [n for n in ctx.live_nodes(f) if n.kind == 'stmt' and isinstance(n.ast, ast.Assign) and
+              isinstance(n.ast.targets[0], ast.Subscript) and
+              norm_text(n.ast.targets[0].value) == 'fmt_options']
+    if run.need('R4', stores, 'fmt_options[<key>] = <value> in replace_gnu_args', f):
+        for n in stores:
+            alts = rdf.expand(n, n.ast.targets[0].slice)
+            run.check('R4', all(all_lowered(a.expr, loopvars) and
+                                any(isinstance(x, ast.Name) and x.id in loopvars
+                                    for x in ast.walk(a.expr)) for a in alts),
+                      'option keys are lower-cased', f, n.ast,
+                      'option names are compared case-sensitively')
     rp = ctx.fn('circus.util:replace_gnu_args._repl')
-    t2 = norm_text(rp.node)
-    run.check('R4', astq.has_pattern(t2, '$o = $r.lower()'), 'the referenced name is lower-cased', rp,
+    rdr = reaching_defs(ctx, rp)
+    look = [n for n in ctx.cfg(rp).nodes if n.kind == 'test' and
+            'fmt_options' in norm_text(n.ast)]
+    lv = {h.ast.target.id for h in ctx.cfg(rp).nodes if h.kind == 'iter' and
+          isinstance(h.ast.target, ast.Name)}
+    oklow = bool(look)
+    for n in look:
+        if isinstance(n.ast, ast.Compare):
+            for a in rdr.expand(n, n.ast.left):
+                if isinstance(a.expr, ast.Constant):
+                    continue          # the "no group matched" initial value
+                oklow = oklow and all_lowered(a.expr, lv)
+    run.check('R4', oklow, 'the referenced name is lower-cased', rp,
               rp.node, 'references are looked up case-sensitively')
     cfg = ctx.cfg(rp)
     rets = [n for n in ctx.live_nodes(rp) if n.kind == 'stmt' and isinstance(n.ast, ast.Return)]
